@@ -2,7 +2,7 @@
 
 import numpy as np
 
-from .. import cases, cmp, gen, sim
+from .. import cases, cmp, expect, gen, sim
 from ..harness import CaseResult
 from ..probe import read
 
@@ -36,7 +36,7 @@ REQUIRED_REACH = [
     "stripe._BaseCubeCounts:_NumArrCubeCounts",
     "class:table=MR", "class:table=CAT", "class:table=ARR",
     "class:near_logical_cat", "class:near_logical_array", "filtercols",
-    "class:augmented_missing_not_last",
+    "class:augmented_missing_not_last", "class:read_prelude",
 ]
 BATCH = 60
 
@@ -160,6 +160,10 @@ def check_case(case):
             dims, fixed = [nd - 2, nd - 1], ({0: t} if nd == 3 else {})
             kind = "slice"
         res.monitors[kind] += 1
+        # in half of the cases every public property of the partition is read first, in a random
+        # order: the tabulations must not depend on what was computed before them
+        if expect.prelude(L, part, p=0.5, k=1000):
+            res.classes.append("read_prelude")
 
         def cell(fn):
             return _grid(o, dims, lambda s: fn({**fixed, **s}))
